@@ -146,7 +146,11 @@ where
     /// Return the state with a new constraint
     pub fn with_constraint(mut self, constraint: Rc<dyn Constraint<U, E>>) -> State<U, E> {
         U::with_constraint(&mut self, &constraint);
-        self.cstore_to_mut().push_and_normalize(constraint);
+        let dropped = self.cstore_to_mut().push_and_normalize(constraint);
+        // Constraints dropped as redundant have left the store like any taken constraint.
+        for c in dropped.iter() {
+            U::take_constraint(&mut self, c);
+        }
         self
     }
 
